@@ -257,6 +257,8 @@ int main(int argc, char** argv)
         printUsage(argv[0]);
         return EXIT_FAILURE;
       }
+      --complementRow;
+      task = TASK_APPLY;
       a++;
     }
     else if (!strcmp(argv[a], "-c") && a+1 < argc)
@@ -269,6 +271,8 @@ int main(int argc, char** argv)
         printUsage(argv[0]);
         return EXIT_FAILURE;
       }
+      --complementColumn;
+      task = TASK_APPLY;
       a++;
     }
     else if (!strcmp(argv[a], "-n") && a+1 < argc)
